@@ -22,10 +22,10 @@ REQUIRED_THEOREMS = ["save_then_load_restores_registers", "save_touches_only_own
                      "handover_finish", "isolation_load", "isolation_unload", "active_fiber_dual"]
 # the state the models abstract is all the state there is: the fields of the run-time structures, regenerated on every run, are the ones
 # the models were written against (Props/StateInventory)
-THEOREM_MODULES.append("Yarel.Props.StateInventory")
+THEOREM_MODULES.append("Yarel.Props.StateInventory.state_of_interpreter_and_fiber")
 REQUIRED_THEOREMS += ['state_of_interpreter_and_fiber']
 # who writes the state the mechanism models are about: the set of write sites per group of fields, regenerated on every run (Props/StateWrites)
-THEOREM_MODULES.append("Yarel.Props.StateWrites")
+THEOREM_MODULES.append("Yarel.Props.StateWrites.writers_of_fiber_links")
 REQUIRED_THEOREMS += ['writers_of_fiber_links']
 LEVEL = "proof"
 ASSUMPTIONS = [
